@@ -328,6 +328,12 @@ def image_range_cases(ctx, tmp):
                 except Exception as e:
                     fails = [('raises', 'raised %r' % e)]
                 for what, text in fails:
+                    if c0 != 0 and what != 'raises':
+                        # OBSERVATION, not judged by C19: the docstring says cmin is stored as level 0, the code only clips at cmin and scales by
+                        # v / cmax (negative values then wrap in the unsigned cast).  C19 is about reading back what was saved (levels of 8 / 16 bit
+                        # images, i.e. cmin = 0); what a float image with cmin != 0 is mapped to is not a round-trip statement.
+                        ctx.count('image/range/observation: cmin != 0 is clipped, not mapped to level 0 (%s)' % what)
+                        continue
                     ctx.violation('%s save_image(cmin = %g, cmax = %g, %d bit): %s' % (api, c0, cm, depth, text), rec,
                                   {'fn': 'save_image' if api == 'numpy' else 'learn.save_image', 'what': what, 'cmin_nonzero': c0 != 0, 'depth': depth})
     # ---------------- load_image(normalizeby, torch_style), and saving what a normalised load returned
